@@ -55,7 +55,13 @@
 #include "sched_harness.h"
 #include "vh.h"
 
-const char *vh_property_id = "C06";
+// The same scenario engine also serves C08 (-DVH_PROP_ID="C08": "the total over all reported series equals
+// everything recorded", here with measurements racing collections) and C07 (-DVH_SCHED_HIST: the instrument is
+// a histogram; the sum of a series' points is conserved, bucket counts add up to count in every point).
+#ifndef VH_PROP_ID
+#  define VH_PROP_ID "C06"
+#endif
+const char *vh_property_id = VH_PROP_ID;
 
 namespace
 {
@@ -94,9 +100,12 @@ enum Kind
   kCtrLong,
   kCtrDouble,
   kUdLong,
-  kUdDouble
+  kUdDouble,
+  kHistLong,
+  kHistDouble
 };
-const char *const kKindName[] = {"Counter<uint64>", "Counter<double>", "UpDownCounter<int64>", "UpDownCounter<double>"};
+const char *const kKindName[] = {"Counter<uint64>", "Counter<double>", "UpDownCounter<int64>", "UpDownCounter<double>",
+                                 "Histogram<uint64>", "Histogram<double>"};
 
 struct Handle
 {
@@ -104,10 +113,18 @@ struct Handle
   nostd::unique_ptr<om::Counter<double>> cd;
   nostd::unique_ptr<om::UpDownCounter<int64_t>> ul;
   nostd::unique_ptr<om::UpDownCounter<double>> ud;
+  nostd::unique_ptr<om::Histogram<uint64_t>> hl;
+  nostd::unique_ptr<om::Histogram<double>> hd;
   void create(om::Meter &m, int kind)
   {
     switch (kind)
     {
+      case kHistLong:
+        hl = m.CreateUInt64Histogram("c", "", "");
+        break;
+      case kHistDouble:
+        hd = m.CreateDoubleHistogram("c", "", "");
+        break;
       case kCtrLong:
         cl = m.CreateUInt64Counter("c", "", "");
         break;
@@ -131,6 +148,12 @@ struct Handle
     otel::common::KeyValueIterableView<std::map<std::string, std::string>> view(attrs);
     switch (kind)
     {
+      case kHistLong:
+        hl->Record(static_cast<uint64_t>(v), view, otel::context::Context{});
+        break;
+      case kHistDouble:
+        hd->Record(static_cast<double>(v), view, otel::context::Context{});
+        break;
       case kCtrLong:
         if (set == 0)
           cl->Add(static_cast<uint64_t>(v));
@@ -212,7 +235,11 @@ struct AddRec
 Cfg gen_cfg(vh::Reader &rd)
 {
   Cfg c;
-  c.kind      = static_cast<int>(rd.below(4));
+#ifdef VH_SCHED_HIST
+  c.kind = kHistLong + static_cast<int>(rd.below(2));
+#else
+  c.kind = static_cast<int>(rd.below(4));
+#endif
   unsigned nr = 1 + static_cast<unsigned>(rd.weighted({5, 5}));
   for (unsigned r = 0; r < nr; ++r)
     c.reader_delta.push_back(!rd.coin());  // zero byte: delta
@@ -225,7 +252,7 @@ Cfg gen_cfg(vh::Reader &rd)
     {
       AddOp a;
       a.value = 1 + static_cast<int64_t>(rd.below(9));
-      if (c.kind >= kUdLong && rd.chance(30))
+      if ((c.kind == kUdLong || c.kind == kUdDouble) && rd.chance(30))
         a.value = -a.value;
       a.set          = static_cast<int>(rd.weighted({6, 3, 1}));
       a.yield_before = rd.chance(30);
@@ -305,10 +332,7 @@ uint64_t ns_of(otel::common::SystemTimestamp t)
 }
 }  // namespace
 
-VH_TARGET(meter_sched, 4,
-          "a case is non-trivial when a Collect call overlapped an Add call (or the instrument's creation, or the "
-          "registration of the late reader overlapped an Add call) by logical stamps, or the schedule preempted a "
-          "running thread; distinct = distinct (scenario, schedule taken)")
+static void sched_body(vh::Case &c)
 {
   static NullLog *quiet = [] {
     auto *h = new NullLog;
@@ -337,7 +361,9 @@ VH_TARGET(meter_sched, 4,
       // every attribute is dropped: all measurements of the stream land in the series {}
       static const sdkm::InstrumentType types[] = {sdkm::InstrumentType::kCounter, sdkm::InstrumentType::kCounter,
                                                    sdkm::InstrumentType::kUpDownCounter,
-                                                   sdkm::InstrumentType::kUpDownCounter};
+                                                   sdkm::InstrumentType::kUpDownCounter,
+                                                   sdkm::InstrumentType::kHistogram,
+                                                   sdkm::InstrumentType::kHistogram};
       reg->AddView(std::unique_ptr<sdkm::InstrumentSelector>(new sdkm::InstrumentSelector(types[cfg.kind], "c", "")),
                    std::unique_ptr<sdkm::MeterSelector>(new sdkm::MeterSelector("", "", "")),
                    std::unique_ptr<sdkm::View>(new sdkm::View(
@@ -414,6 +440,29 @@ VH_TARGET(meter_sched, 4,
               }
               if (pt.set < 0 || p.attributes.size() > 1 || (pt.set == 0 && !p.attributes.empty()))
                 rec.problem = "a series with attributes nobody recorded";
+              if (nostd::holds_alternative<sdkm::HistogramPointData>(p.point_data) && cfg.kind >= kHistLong)
+              {
+                auto &hp      = nostd::get<sdkm::HistogramPointData>(p.point_data);
+                uint64_t cnts = 0;
+                for (uint64_t x : hp.counts_)
+                  cnts += x;
+                if (cnts != hp.count_)
+                  rec.problem = "a histogram point whose bucket counts do not add up to its count";
+                if (nostd::holds_alternative<int64_t>(hp.sum_))
+                  pt.value = nostd::get<int64_t>(hp.sum_);
+                else
+                {
+                  double d = nostd::get<double>(hp.sum_);
+                  pt.value = static_cast<int64_t>(d);
+                  if (static_cast<double>(pt.value) != d)
+                    rec.problem = "a fractional sum although only integers were recorded";
+                }
+                // every recorded value is between 1 and 9: count and sum must be consistent
+                if (static_cast<int64_t>(hp.count_) > pt.value || static_cast<int64_t>(hp.count_) * 9 < pt.value)
+                  rec.problem = "a histogram point whose count and sum cannot both be right (values are 1..9)";
+                rec.points.push_back(pt);
+                continue;
+              }
               if (!nostd::holds_alternative<sdkm::SumPointData>(p.point_data))
               {
                 rec.problem = "a point that is not a sum";
@@ -546,7 +595,7 @@ VH_TARGET(meter_sched, 4,
   VH_CHECK(c, !never_created, "recorder 0 did not finish creating the instrument within 2 s of virtual time");
 
   // ---- oracle
-  bool monotonic = cfg.kind == kCtrLong || cfg.kind == kCtrDouble;
+  bool monotonic = cfg.kind == kCtrLong || cfg.kind == kCtrDouble || cfg.kind >= kHistLong;
   bool late_saw_in_flight = false, late_missed_in_flight = false;
   for (size_t r = 0; r < reader_delta.size(); ++r)
     for (int stream = 0; stream < kStreams; ++stream)
@@ -733,3 +782,21 @@ VH_TARGET(meter_sched, 4,
   c.tag("readers-" + std::to_string(cfg.reader_delta.size()));
   c.nontrivial = overlap || reg_overlap || rs.preemptions > 0;
 }
+
+#ifdef VH_SCHED_HIST
+VH_TARGET(hist_sched, 4,
+          "a case is non-trivial when a Collect call overlapped an Add call (or the instrument's creation, or the "
+          "registration of the late reader overlapped an Add call) by logical stamps, or the schedule preempted a "
+          "running thread; distinct = distinct (scenario, schedule taken)")
+{
+  sched_body(c);
+}
+#else
+VH_TARGET(meter_sched, 4,
+          "a case is non-trivial when a Collect call overlapped an Add call (or the instrument's creation, or the "
+          "registration of the late reader overlapped an Add call) by logical stamps, or the schedule preempted a "
+          "running thread; distinct = distinct (scenario, schedule taken)")
+{
+  sched_body(c);
+}
+#endif
